@@ -213,12 +213,15 @@ func enumCacheReqsSeeded(tier string, yield func(*scen) bool) {
 
 // enumWide: structs with 300 and 4100 declared fields (field-name map in hash mode, ids beyond 256 / 4096).
 func enumWide(tier string, yield func(*scen) bool) {
-	for _, nf := range []int{17, 300, 4100, -300} {
+	for _, nf := range []int{17, 300, 4100, -300, -303} {
 		// -300: 300 fields again, one of them (in the middle) with a non-ASCII alias: the name table of such a struct
 		// cannot be the hash map (its hash function is ASCII-only) although the names are poorly dispersed
-		nonASCII := nf < 0
-		if nonASCII {
-			nf = -nf
+		// -303: 300 fields plus three whose names have the same length and the same 32-bit DJB hash
+		// (33*'a'+'z' == 33*'b'+'Y' == 33*'c'+'8')
+		nonASCII := nf == -300
+		collide := nf == -303
+		if nf < 0 {
+			nf = 300
 		}
 		st := tbin.StructS()
 		for i := 1; i <= nf; i++ {
@@ -228,7 +231,12 @@ func enumWide(tier string, yield func(*scen) bool) {
 			}
 			st.Fields = append(st.Fields, tbin.SField{ID: int16(i), Name: fmt.Sprintf("field_%d_x", i), S: t, Req: 2})
 		}
-		p := jt.NewProg(fmt.Sprintf("wide%d", nf), st)
+		if collide {
+			for k, nm := range []string{"field_az_x", "field_bY_x", "field_c8_x"} {
+				st.Fields = append(st.Fields, tbin.SField{ID: int16(301 + k), Name: nm, S: tbin.Sc(tbin.STRING), Req: 2})
+			}
+		}
+		p := jt.NewProg(fmt.Sprintf("wide%d", len(st.Fields)), st)
 		if nonASCII {
 			p = jt.NewProg(fmt.Sprintf("wide%d-nonascii", nf), st)
 			p.Set(st, nf/2, jt.FX{Alias: "键\u4e2d文", Ann: []string{`api.key = "键中文"`}})
@@ -248,6 +256,14 @@ func enumWide(tier string, yield func(*scen) bool) {
 		variants["every-3rd"] = e3
 		variants["last-only"] = tbin.Struct(full.Fs[len(full.Fs)-1])
 		variants["first-and-last"] = tbin.Struct(full.Fs[len(full.Fs)-1], full.Fs[0])
+		if collide {
+			n := len(full.Fs)
+			order = append(order, "colliding-1", "colliding-2", "colliding-3", "colliding-3-2-1")
+			variants["colliding-1"] = tbin.Struct(full.Fs[n-3])
+			variants["colliding-2"] = tbin.Struct(full.Fs[n-2])
+			variants["colliding-3"] = tbin.Struct(full.Fs[n-1])
+			variants["colliding-3-2-1"] = tbin.Struct(full.Fs[n-1], full.Fs[6], full.Fs[n-2], full.Fs[n-3])
+		}
 		for _, name := range order {
 			v := variants[name]
 			j, _ := p.Doc(v, st, jt.DocOpt{})
@@ -255,14 +271,15 @@ func enumWide(tier string, yield func(*scen) bool) {
 				if nf > 1000 && sp.Esc == 2 && name != "last-only" && name != "first-and-last" && tier != "thorough" {
 					continue
 				}
-				sc := &scen{op: "wide", trigger: fmt.Sprintf("fields=%d,%s,%s", nf, name, sp) + map[bool]string{true: ",non-ascii-alias"}[nonASCII], prog: p, optName: "none", doc: jt.Render(j, sp), want: tbin.Bytes(v), ks: []int{0, 1, 2, 3}}
+				sc := &scen{op: "wide", trigger: fmt.Sprintf("fields=%d,%s,%s", nf, name, sp) + map[bool]string{true: ",non-ascii-alias"}[nonASCII] + map[bool]string{true: ",colliding-names"}[collide], prog: p, optName: "none", doc: jt.Render(j, sp), want: tbin.Bytes(v), ks: []int{0, 1, 2, 3}}
 				if !yield(sc) {
 					return
 				}
 			}
 		}
 		// an unknown key that is a declared key plus / minus one byte, under Disallow
-		for _, k := range []string{fmt.Sprintf("field_%d_", nf), fmt.Sprintf("field_%d_xx", nf), "field_0_x", ""} {
+		// ... or (last) an undeclared key with the length and the DJB hash of the declared "field_1_x"
+		for _, k := range []string{fmt.Sprintf("field_%d_", nf), fmt.Sprintf("field_%d_xx", nf), "field_0_x", "", "field_2>x"} {
 			j := jt.JObj().Add(k, jt.JNum("1"))
 			if !yield(&scen{op: "wide", trigger: fmt.Sprintf("fields=%d,near-miss-key,disallow", nf), prog: p, copts: conv.Options{DisallowUnknownField: true}, optName: "DisallowUnknownField", doc: jt.Render(j, jt.Spell{}), bad: true}) {
 				return
